@@ -870,9 +870,21 @@ func (c *octx) waits() *eng.Violation {
 				at = or.Cancels[0].T
 			}
 			sleeps := false
+			type cbKey struct {
+				k          string
+				n, v, a, i int
+			}
+			started := map[cbKey]int64{}
 			for _, e := range or.All {
-				if strings.HasSuffix(e.Kind, "_end") && e.T > at {
-					sleeps = true // something was still executing a slow callback
+				switch {
+				case strings.HasSuffix(e.Kind, "_start"):
+					started[cbKey{strings.TrimSuffix(e.Kind, "_start"), e.N, e.V, e.A, e.I}] = e.T
+				case strings.HasSuffix(e.Kind, "_end") && e.T > at:
+					// something was still executing a slow callback when the cancellation
+					// arrived (a callback that only started afterwards is not that)
+					if t0, ok := started[cbKey{strings.TrimSuffix(e.Kind, "_end"), e.N, e.V, e.A, e.I}]; ok && t0 <= at {
+						sleeps = true
+					}
 				}
 			}
 			cut := false
